@@ -24,6 +24,7 @@ RULE = ('event = a code generated from the syntax tree of PAT_EVENT_CODE (half) 
 ASSUMPTIONS = ['speed limits are the documented ones: 0.5..11 m/s up to 400 m, 0.5..10 m/s beyond (1e-9 slack); record x 1.2 for field',
                'events outside the three families the property names (fixed-duration, custom H/L, BAL/SPB) are only '
                'checked for the exception-class, string-type and idempotence clauses']
+RULE = RULE + '; every seventh case also with the documented defaults spelled out and with the error class left out'
 
 
 class PrivateError(Exception):
